@@ -187,7 +187,7 @@ func (x *Exec) checkFrame(st *State, fr *Frame, c *Contract, at string) {
 func (x *Exec) flattenField(st *State, ref Term, S *types.Struct, sn string, i int, out map[string][]Term) {
 	f := S.Field(i)
 	key := sn + "." + f.Name()
-	switch u := f.Type().Underlying().(type) {
+	switch u := under(f.Type()).(type) {
 	case *types.Struct:
 		if !isTypeParam(f.Type()) {
 			er := st.embRef(sn, f.Name(), ref)
@@ -415,7 +415,7 @@ func (x *Exec) eval(env *specEnv, e ast.Expr, hint types.Type, cl *Clause) Val {
 		if !ok || t.Typ == nil {
 			x.specFail(cl, "cannot dereference %s", exprStr(n.X))
 		}
-		pt := t.Typ.Underlying().(*types.Pointer).Elem()
+		pt := under(t.Typ).(*types.Pointer).Elem()
 		return x.loadIn(env, t, pt)
 	case *ast.IndexExpr:
 		base := x.eval(env, n.X, nil, cl)
@@ -441,7 +441,7 @@ func (x *Exec) eval(env *specEnv, e ast.Expr, hint types.Type, cl *Clause) Val {
 				}
 				r := tSelect(b, idx)
 				if b.Typ != nil {
-					if at, ok := b.Typ.Underlying().(*types.Array); ok {
+					if at, ok := under(b.Typ).(*types.Array); ok {
 						r.Typ = at.Elem()
 					}
 				}
@@ -544,7 +544,7 @@ func (x *Exec) evalIdent(env *specEnv, n *ast.Ident, cl *Clause) Val {
 	if m, ok := x.pkg.Members[n.Name]; ok {
 		if g, ok := m.(*ssa.Global); ok {
 			gt := g.Type().(*types.Pointer).Elem()
-			if _, isStruct := gt.Underlying().(*types.Struct); isStruct {
+			if _, isStruct := under(gt).(*types.Struct); isStruct {
 				r := st.globalRef(g)
 				r.Typ = g.Type()
 				return r
@@ -594,7 +594,7 @@ func (x *Exec) localByName(env *specEnv, name string) (Val, bool) {
 
 func (x *Exec) loadIn(env *specEnv, ref Term, pt types.Type) Val {
 	st := env.st
-	if su, ok := pt.Underlying().(*types.Struct); ok && !isTypeParam(pt) {
+	if su, ok := under(pt).(*types.Struct); ok && !isTypeParam(pt) {
 		return st.loadStruct(env.snapshot(), ref, su, pt)
 	}
 	return st.loadAt(env.snapshot(), "box."+sanitize(pt.String()), ref, pt, nil)
@@ -619,8 +619,8 @@ func (x *Exec) selectField(env *specEnv, base Val, name string, cl *Clause) Val 
 		}
 	case Term:
 		if b.Typ != nil {
-			if pt, ok := b.Typ.Underlying().(*types.Pointer); ok {
-				if su, ok := pt.Elem().Underlying().(*types.Struct); ok {
+			if pt, ok := under(b.Typ).(*types.Pointer); ok {
+				if su, ok := under(pt.Elem()).(*types.Struct); ok {
 					sn := structName(pt.Elem())
 					if i, ok := fieldIndex(su, name); ok {
 						return st.loadField(env.snapshot(), b, su, sn, i)
@@ -628,7 +628,7 @@ func (x *Exec) selectField(env *specEnv, base Val, name string, cl *Clause) Val 
 					for i := 0; i < su.NumFields(); i++ {
 						f := su.Field(i)
 						if f.Embedded() {
-							if es, ok := f.Type().Underlying().(*types.Struct); ok {
+							if es, ok := under(f.Type()).(*types.Struct); ok {
 								if _, ok := fieldIndex(es, name); ok {
 									er := st.embRef(sn, f.Name(), b)
 									er.Typ = types.NewPointer(f.Type())
@@ -833,7 +833,7 @@ func (x *Exec) evalCall(env *specEnv, n *ast.CallExpr, hint types.Type, cl *Clau
 				return Term{S: "(str_len " + a.S + ")", Sort: sBV(64), Typ: types.Typ[types.Int]}
 			}
 			if a.Sort == sRef && a.Typ != nil {
-				if mt, ok := a.Typ.Underlying().(*types.Map); ok {
+				if mt, ok := under(a.Typ).(*types.Map); ok {
 					_, _, ln, _, _ := x.mapKeys(st, mt)
 					return st.heapRead(env.snapshot(), ln, sBV(64), a, types.Typ[types.Int])
 				}
@@ -906,7 +906,7 @@ func (x *Exec) evalCall(env *specEnv, n *ast.CallExpr, hint types.Type, cl *Clau
 		// has(m, k): key present in map
 		need(2)
 		m := arg(0, nil)
-		mt, ok := m.Typ.Underlying().(*types.Map)
+		mt, ok := under(m.Typ).(*types.Map)
 		if !ok {
 			x.specFail(cl, "has: not a map")
 		}
@@ -981,8 +981,8 @@ func (x *Exec) evalLoc(env *specEnv, loc string, c *Contract) Val {
 		if !ok || r.Typ == nil {
 			x.specFail(cl, "all() needs a pointer to struct in %s", loc)
 		}
-		pt := r.Typ.Underlying().(*types.Pointer).Elem()
-		return wholeStructLoc{Ref: r, S: pt.Underlying().(*types.Struct), SN: structName(pt)}
+		pt := under(r.Typ).(*types.Pointer).Elem()
+		return wholeStructLoc{Ref: r, S: under(pt).(*types.Struct), SN: structName(pt)}
 	}
 	e, err := parseExprCached(loc)
 	if err != nil {
@@ -1003,11 +1003,11 @@ func (x *Exec) evalLoc(env *specEnv, loc string, c *Contract) Val {
 		if ref.Typ == nil {
 			x.specFail(cl, "location %s: untyped base", loc)
 		}
-		pt, ok := ref.Typ.Underlying().(*types.Pointer)
+		pt, ok := under(ref.Typ).(*types.Pointer)
 		if !ok {
 			x.specFail(cl, "location %s: base is not a pointer", loc)
 		}
-		su := pt.Elem().Underlying().(*types.Struct)
+		su := under(pt.Elem()).(*types.Struct)
 		sn := structName(pt.Elem())
 		if i, ok := fieldIndex(su, n.Sel.Name); ok {
 			return FieldPtr{Ref: ref, S: su, SN: sn, Idx: i}
@@ -1015,7 +1015,7 @@ func (x *Exec) evalLoc(env *specEnv, loc string, c *Contract) Val {
 		for i := 0; i < su.NumFields(); i++ {
 			f := su.Field(i)
 			if f.Embedded() {
-				if es, ok := f.Type().Underlying().(*types.Struct); ok {
+				if es, ok := under(f.Type()).(*types.Struct); ok {
 					if j, ok := fieldIndex(es, n.Sel.Name); ok {
 						er := env.st.embRef(sn, f.Name(), ref)
 						return FieldPtr{Ref: er, S: es, SN: structName(f.Type()), Idx: j}
